@@ -411,7 +411,9 @@ func runC09(env *lib.Env, rep *lib.Report) {
 			}
 			for _, mk := range []func(n int) string{
 				func(n int) string { return q + " '" + strings.Repeat("z", n) + "'" },
-				func(n int) string { return "SELECT '" + strings.Repeat("w", n) + "' , " + strings.TrimPrefix(q, "SELECT ") },
+				func(n int) string {
+					return "SELECT '" + strings.Repeat("w", n) + "' , " + strings.TrimPrefix(q, "SELECT ")
+				},
 				func(n int) string { return q + " " + strings.Repeat("i", n) },
 				func(n int) string { return strings.Repeat(" ", n) + q },
 				func(n int) string { return q + " " + strings.Repeat("7", n) },
